@@ -71,3 +71,13 @@ M("attr-set-no-type-check", ["C10"], TREE,
   "    if (attr_node_value_get_value_type(value_node) != type) {", "    if (0) {")
 M("attr-set-int64-any-len", ["C10"], TREE, "\treturn len == sizeof(int64_t);", "\treturn true;")
 M("attr-set-ro-allowed", ["C10"], TREE, "    if (!attr_node_value_is_writable(value_node)) {", "    if (0 && !attr_node_value_is_writable(value_node)) {")
+
+# ---- C07
+MBUF = "libxcm/tp/common/mbuf.h"
+M("mbuf-hdr-zero-ok", ["C07"], MBUF, "\tmbuf_complete_payload_len(b) > 0 &&\n", "")
+M("mbuf-hdr-max-plus-hdr", ["C07"], MBUF, "\tmbuf_complete_payload_len(b) <= MBUF_MSG_MAX;", "\tmbuf_complete_payload_len(b) <= MBUF_WIRE_MAX;")
+M("tcp-bad-hdr-not-sticky", ["C07"], TCP, "\tts->conn.bad = true;\n\tts->conn.badness_reason = EPROTO;\n", "")
+M("tls-bad-hdr-not-sticky", ["C07"], TLS, "\tts->conn.bad = true;\n\tts->conn.badness_reason = EPROTO;\n", "")
+# (tcp_receive without the conn.bad test is an equivalent mutant: buffer_payload re-detects the bad header)
+M("tcp-hdr-valid-skipped", ["C07"], TCP, "    if (!mbuf_is_hdr_valid(rbuf)) {", "    if (0) {")
+M("tcp-deliver-partial-on-eof", ["C07", "C01"], TCP, "    int rc = buffer_msg(s);\n    if (rc <= 0)\n\treturn rc;", "    int rc = buffer_msg(s);\n    if (rc < 0)\n\treturn rc;\n    if (rc == 0 && !mbuf_is_complete(&ts->conn.receive_mbuf)) return 0;")
